@@ -33,6 +33,7 @@ ASSUMPTIONS = [
 ]
 MIN_NONTRIVIAL_FRACTION = 0.3
 RULE += " Added after the seeded rounds: " + 'Raising digesters raise one of 16 exception types.'
+RULE += ' Clock gaps up to two days.'
 EXHAUSTIVE_NOTE = {"quick": "all op sequences of length 1..3 over 12 ops x 4 configurations (4*(12+144+1728) = 7536), complete",
                    "thorough": "all op sequences of length 1..4 over 12 ops x 4 configurations (90480), complete"}
 
@@ -44,7 +45,7 @@ _op = st.one_of(
     st.tuples(st.just("sens"), st.sampled_from([False, False, True])),
     st.tuples(st.just("digest"), st.sampled_from([None, None, 1, 2, 3])),
     st.tuples(st.just("autophagy")),
-    st.tuples(st.just("adv"), st.sampled_from([17, 39, 41, 61])),
+    st.tuples(st.just("adv"), st.sampled_from([17, 39, 41, 61, 61, 24 * 60 + 5, 24 * 60 + 41, 48 * 60 + 10])),
     st.tuples(st.just("daemon")),
 ).map(list)
 
